@@ -12,7 +12,9 @@ RULE = ("history = 3 event types stored so that they live in different subsets o
         "STOREs and FLUSHes between rounds; before and after every round Obs = {rows (k, ctx, payload, event_id) per type, REPLAY "
         "membership per context, COUNT / TOTAL / MIN / MAX} must be equal, COUNT must equal the distinct rows, and the live list / index "
         "must stop naming drained inputs; crash clause: every compaction step point x first/last hit, restart, Obs equal to the pre-round "
-        "Obs, then a further round; distinct_nontrivial counts distinct (round shape | crash point, config) observations with >=1 executed plan")
+        "Obs, then a further round; failure clause: a directory planted where the compactor wants to create one output file of one "
+        "event type (.zones/.idx/.col/.zfc) while the round is parked after creating its output directory, Obs equal after the failed "
+        "run, after removing the obstacle + another round, and after restart; distinct_nontrivial counts distinct (round shape | crash point, config) observations with >=1 executed plan")
 
 TYPES = {"ta": 'DEFINE ta FIELDS { k: "int", v: "string", n: "int" }',
          "tb": 'DEFINE tb FIELDS { k: "int", v: "string", n: "int" }',
@@ -97,7 +99,7 @@ def check_retired(node, results, res, sig, witness):
                 res.violation("live_list_names_unindexed_segment", sig, f"shard {sh['shard']}: live {lbl} not in index {sorted(named)}", witness)
 
 
-def build_history(rng, cfg):
+def build_history(rng, cfg, twin=False):
     cap = cfg["fill_factor"] * cfg["event_per_zone"]
     ctxs = ["c0", "c1", "c2", "c3"]
     steps, k = [], 0
@@ -107,7 +109,7 @@ def build_history(rng, cfg):
         for _ in range(rng.randint(1, max(1, cap))):
             k += 1
             steps.append(("store", "ta", rng.choice(ctxs), k))
-        if seg % 2 == 0:
+        if seg % 2 == 0 or twin:   # twin: tb lives in exactly the segments of ta, so both are compacted in one batch
             k += 1; steps.append(("store", "tb", rng.choice(ctxs), k))
         if not c_done and rng.random() < 0.4:
             k += 1; steps.append(("store", "tc", rng.choice(ctxs), k)); c_done = True
@@ -276,8 +278,103 @@ def crash_task(task, wdir, res):
         lt.stop()
 
 
+def failure_task(task, wdir, res):
+    """A compaction run that fails for one event type of a batch (its output file cannot be created): the previous answers
+    still hold, in the same process, after the obstacle is gone and a further round ran, and after a restart."""
+    import os
+    import time
+    rng = random.Random(task["seed"])
+    cfg = dict(gen_cfg(rng), shard_count=1)
+    steps, ctxs, k = build_history(rng, cfg, twin=task["nth"] == 1)
+    lt = Lifetimes(wdir, **cfg)
+    node = lt.start()
+    res.count("tasks"); res.count("failure_runs")
+    kind = task["kind"]
+    witness = {"seed": task["seed"], "config": cfg, "steps": steps, "mode": "failure", "kind": kind, "nth": task["nth"]}
+    sig = {"mode": "failure", "obstacle": kind}
+    try:
+        for d in TYPES.values():
+            must_ok(node.cmd(d), "define")
+        apply_steps(node, steps)
+        before = observe(node, ctxs)
+        st = node.meta("state")[0]
+        idx = st["index"] if isinstance(st["index"], list) else []
+        uids = sorted({u for e in idx for u in e["uids"]})
+        if not uids:
+            return
+        uid = rng.choice(uids)
+        node.meta("arm mc.out_dir_created 0 pause")     # every batch parks after creating its output directory
+        node.meta("compactbg 0")
+        planted = []
+        name = {"zones": f"{uid}.zones", "idx": f"{uid}.idx", "col_k": f"{uid}_k.col", "col_ts": f"{uid}_timestamp.col",
+                "zfc_ctx": f"{uid}_context_id.zfc"}[kind]
+        for _ in range(12):
+            rep = node.meta("waitparkedat mc.out_dir_created 3000")
+            if not rep.get("ok"):
+                break
+            for n, a in rep.get("parked", []):
+                if n != "mc.out_dir_created":
+                    continue
+                pth = os.path.join(wdir, "cols", "shard-0", "%05d" % a, name)
+                try:
+                    os.mkdir(pth)     # a directory where the compactor wants to create a file of that event type
+                    planted.append(pth)
+                except OSError:
+                    pass
+            node.meta("release mc.out_dir_created")
+            time.sleep(0.02)
+        if not planted:
+            res.count("point_not_reached")
+        node.meta("disarmpoint mc.out_dir_created"); node.meta("release mc.out_dir_created")
+        node._send("@wait compact-0 60000")
+        _, body = node._read_frame(90)
+        try:
+            result = json.loads(body.decode("utf-8", "replace"))
+        except ValueError:
+            result = {"raw": body.decode("utf-8", "replace")[:300]}
+        witness["compaction"] = json.dumps(result)[:600]
+        failed = bool(result.get("plans")) and not result.get("ok")
+        time.sleep(0.2)
+        after = observe(node, ctxs)
+        res.evaluations += 1
+        if failed:
+            res.nontrivial(("failure", kind, gen.cfg_desc(cfg)))
+            res.add_set("failed_runs", kind)
+        phase_sig = dict(sig, run_failed=failed)
+        for rule, what, detail in diff_obs(before, after):
+            res.violation(rule, dict(phase_sig, phase="after_failed_run"), f"obstacle {kind} for uid {uid} ({'run failed' if failed else 'run ok'}): {what}: {detail}", witness)
+        check_double_read(after, res, dict(phase_sig, when="after_failed_run"), witness, "after failed run")
+        for pth in planted:
+            try:
+                os.rmdir(pth)
+            except OSError:
+                pass
+        results = lt.compact_all(1)
+        for r in results:
+            if r.get("plans") and not r.get("ok"):
+                res.violation("compaction_run_failed", dict(phase_sig, phase="round_after_failure", panic="panic" in r), f"{r.get('error') or r.get('panic')}", witness)
+        time.sleep(0.2)
+        after2 = observe(node, ctxs)
+        for rule, what, detail in diff_obs(before, after2):
+            res.violation(rule, dict(phase_sig, phase="round_after_failure"), f"obstacle {kind} for uid {uid}, removed, another round: {what}: {detail}", witness)
+        check_double_read(after2, res, dict(phase_sig, when="round_after_failure"), witness, "round after failure")
+        node = lt.restart_clean()
+        after3 = observe(node, ctxs)
+        for rule, what, detail in diff_obs(before, after3):
+            res.violation(rule, dict(phase_sig, phase="restart_after_failure"), f"obstacle {kind} for uid {uid}, then restart: {what}: {detail}", witness)
+        res.sample({"config": cfg, "mode": "failure", "obstacle": kind, "failed": failed, "compaction": witness["compaction"][:160]})
+    finally:
+        lt.stop()
+
+
+FAIL_KINDS = ["zones", "idx", "col_k", "col_ts", "zfc_ctx"]
+
+
 def run(run):
     quick = run.tier == "quick"
+    nf = 20 if quick else 200
+    run.parallel(failure_task, [{"name": f"f{i}", "seed": run.rng("fail", i).getrandbits(40), "kind": FAIL_KINDS[i % len(FAIL_KINDS)],
+                                 "nth": 1 + (i // len(FAIL_KINDS)) % 2} for i in range(nf)])
     n = 32 if quick else 200
     run.parallel(rounds_task, [{"name": f"r{i}", "seed": run.rng("rounds", i).getrandbits(40)} for i in range(n)])
     nd = 3 if quick else 40
@@ -298,7 +395,9 @@ def run(run):
 def replay(run, path):
     with open(path) as f:
         w = json.load(f)["witness"]
-    if w.get("mode") == "crash":
+    if w.get("mode") == "failure":
+        run.parallel(failure_task, [{"name": "replay", "seed": w["seed"], "kind": w["kind"], "nth": w["nth"]}], nproc=1)
+    elif w.get("mode") == "crash":
         run.parallel(crash_task, [{"name": "replay", "seed": w["seed"], "point": w["crash"][0], "nth": w["crash"][1]}], nproc=1)
     else:
         run.parallel(rounds_task, [{"name": "replay", "seed": w["seed"]}], nproc=1)
